@@ -1,1 +1,850 @@
-From GV_mpeg1audio Require Import Model.
+(* rtpmpeg1audio: packet well-formedness (C06), round trip (C03), resynchronisation (C07),
+   totality / boundedness on arbitrary histories (C08).
+   Everything is proved for an arbitrary header parser [mpa] satisfying the contract below
+   (Section variables, not axioms); the contract is then proved for the re-modelled mediacommon
+   parser [mpa_parse] and the theorems are instantiated (suffix _mpa). *)
+From GVL Require Import NList Wire Chunks Rtp.
+From GV_mpeg1audio Require Import WireF Model.
+From Coq Require Import ZifyBool ZifyNat ZifyN.
+Open Scope N_scope.
+Ltac splits := repeat match goal with |- _ /\ _ => split end.
+
+(* ---------- generic helpers ---------- *)
+Lemma seq_add_next s k : seq_add (seq_next s) k = seq_add s (k + 1).
+Proof. unfold seq_add, seq_next. rewrite N.add_mod_idemp_l by lia. f_equal. lia. Qed.
+Lemma seq_add_0 s : s < 65536 -> seq_add s 0 = s.
+Proof. intros H. unfold seq_add. rewrite N.add_0_r. now apply N.mod_small. Qed.
+Lemma seq_add_add s a b : seq_add (seq_add s a) b = seq_add s (a + b).
+Proof. unfold seq_add. rewrite N.add_mod_idemp_l by lia. f_equal. lia. Qed.
+Lemma seq_add_lt s k : seq_add s k < 65536.
+Proof. unfold seq_add. apply N.mod_lt. lia. Qed.
+Lemma seq_next_lt s : seq_next s < 65536.
+Proof. unfold seq_next. apply N.mod_lt. lia. Qed.
+
+Lemma nnth_app_l {A} (l1 l2 : list A) i : i < nlen l1 -> nnth i (l1 ++ l2) = nnth i l1.
+Proof.
+  revert i; induction l1 as [|x t IH]; intros i H; cbn [nlen app nnth] in *; [lia|].
+  destruct (N.eqb_spec i 0); [reflexivity|]. apply IH. lia.
+Qed.
+Lemma nnth_app_r {A} (l1 l2 : list A) i : nlen l1 <= i -> nnth i (l1 ++ l2) = nnth (i - nlen l1) l2.
+Proof.
+  revert i; induction l1 as [|x t IH]; intros i H; cbn [nlen app nnth] in *; [f_equal; lia|].
+  destruct (N.eqb_spec i 0); [lia|]. rewrite IH by lia. f_equal. lia.
+Qed.
+Lemma nnth_In {A} (l : list A) : forall i x, nnth i l = Some x -> In x l.
+Proof.
+  induction l as [|y t IH]; intros i x H; cbn [nnth] in H; [discriminate|].
+  destruct (i =? 0); [injection H as ->; now left|right; eapply IH; eassumption].
+Qed.
+Lemma concat_snoc {A} (l : list (list A)) x : concat (l ++ [x]) = concat l ++ x.
+Proof. rewrite concat_app. cbn. now rewrite app_nil_r. Qed.
+Lemma nlen_concat_ge {A} (l : list (list A)) : Forall (fun f => 0 < nlen f) l -> nlen l <= nlen (concat l).
+Proof. induction 1 as [|x t Hx Ht IH]; cbn [nlen concat]; [lia|]. rewrite nlen_app. lia. Qed.
+Lemma in_concat_len {A} (l : list (list A)) x : In x l -> nlen x <= nlen (concat l).
+Proof.
+  induction l as [|y t IH]; intros H; [contradiction|]. cbn [concat]. rewrite nlen_app.
+  destruct H as [->|H]; [lia|]. apply IH in H. lia.
+Qed.
+Lemma be16_val v : v < 65536 -> ((v / 256) mod 256) * 256 + v mod 256 = v.
+Proof.
+  intros H. assert (v / 256 < 256) by (apply N.div_lt_upper_bound; lia).
+  rewrite (N.mod_small (v / 256)) by assumption. pose proof (N.div_mod v 256). lia.
+Qed.
+
+Definition psize (p : packet) : N := nlen (ppayload p).
+Definition seqs_ok (seq : N) (ps : list packet) : Prop :=
+  forall i p, nnth i ps = Some p -> pseq p = seq_add seq i.
+Lemma seqs_ok_app seq ps qs : seqs_ok seq ps -> seqs_ok (seq_add seq (nlen ps)) qs -> seqs_ok seq (ps ++ qs).
+Proof.
+  intros H1 H2 i p H. destruct (N.ltb_spec i (nlen ps)).
+  - rewrite nnth_app_l in H by assumption. now apply H1.
+  - rewrite nnth_app_r in H by assumption. apply H2 in H. rewrite H, seq_add_add. f_equal. lia.
+Qed.
+
+(* ---------- join ---------- *)
+Lemma join_aux_exact frags : forall size n acc,
+  n = nlen acc -> size = n + nlen (concat frags) -> join_aux frags size n acc = Some (acc ++ concat frags).
+Proof.
+  induction frags as [|p t IH]; intros size n acc Hn Hs; cbn [join_aux concat] in *.
+  - cbn [nlen] in Hs. replace (size - n) with 0 by lia. cbn [nrep]. reflexivity.
+  - rewrite nlen_app in Hs. destruct (N.ltb_spec size n); [lia|].
+    rewrite ntake_all by lia. rewrite IH; [now rewrite <- app_assoc| rewrite nlen_app; lia | lia].
+Qed.
+Lemma join_exact frags : join frags (nlen (concat frags)) = Some (concat frags).
+Proof. unfold join. now rewrite join_aux_exact with (acc := []). Qed.
+
+(* ====================================================================================== *)
+(* ---------- encoder (C06): no property of the header parser is needed ---------- *)
+Section E.
+Variable mpa : bytes -> pres.
+Variable max : N.
+Hypothesis Hmax : 5 <= max.
+Notation len_agg := Model.len_agg.
+
+Lemma len_agg_snoc b a : len_agg (b ++ [a]) None = len_agg b (Some a).
+Proof. unfold Model.len_agg. rewrite concat_snoc, nlen_app. lia. Qed.
+
+Definition batch_ok (b : list bytes) : Prop := 2 <= nlen b -> len_agg b None <= max.
+
+Lemma batch_loop_ok fs : forall b, batch_ok b -> Forall batch_ok (batch_loop max fs b).
+Proof.
+  induction fs as [|a t IH]; intros b Hb; cbn [batch_loop]; [now constructor|].
+  destruct (N.leb_spec (len_agg b (Some a)) max) as [Hle|Hgt].
+  - apply IH. intros _. now rewrite len_agg_snoc.
+  - assert (H1 : batch_ok [a]) by (intros H; cbn [nlen] in H; lia).
+    destruct b; [now apply IH|]. constructor; [assumption|now apply IH].
+Qed.
+Lemma batch_loop_concat fs : forall b, concat (batch_loop max fs b) = b ++ fs.
+Proof.
+  induction fs as [|a t IH]; intros b; cbn [batch_loop].
+  - cbn. now rewrite !app_nil_r.
+  - destruct (len_agg b (Some a) <=? max).
+    + rewrite IH, <- app_assoc. reflexivity.
+    + destruct b as [|b0 bt]; [now rewrite IH|]. cbn [concat]. rewrite IH. reflexivity.
+Qed.
+Lemma batch_loop_ne fs : forall b, batch_loop max fs b <> [].
+Proof.
+  induction fs as [|a t IH]; intros b; cbn [batch_loop]; [discriminate|].
+  destruct (len_agg b (Some a) <=? max); [apply IH|]. destruct b; [apply IH|discriminate].
+Qed.
+Lemma batch_loop_nonempty fs : forall b, (b <> [] \/ fs <> []) -> Forall (fun x => x <> []) (batch_loop max fs b).
+Proof.
+  induction fs as [|a t IH]; intros b H; cbn [batch_loop].
+  - constructor; [|constructor]. destruct H as [H|H]; [assumption|contradiction].
+  - destruct (len_agg b (Some a) <=? max).
+    + apply IH. left. destruct b; discriminate.
+    + destruct b as [|b0 bt]; [apply IH; left; discriminate|].
+      constructor; [discriminate|]. apply IH. left; discriminate.
+Qed.
+
+Lemma frag_pkts_len seq ts cs : forall pos, nlen (frag_pkts seq ts pos cs) = nlen cs.
+Proof. revert seq; induction cs as [|x t IH]; intros seq pos; cbn [frag_pkts nlen]; [reflexivity|]. now rewrite IH. Qed.
+
+Lemma frag_pkts_wf ts cs : forall seq pos, seq < 65536 ->
+  seqs_ok seq (frag_pkts seq ts pos cs) /\
+  Forall (fun p => pmarker p = true /\ pts p = ts /\ exists x, In x cs /\ psize p = 4 + nlen x) (frag_pkts seq ts pos cs).
+Proof.
+  induction cs as [|x t IH]; intros seq pos Hs; cbn [frag_pkts].
+  - split; [|constructor]. intros i p H. cbn in H. discriminate.
+  - destruct (IH (seq_next seq) (pos + nlen x) (seq_next_lt _)) as [H1 H2]. split.
+    + intros i p H. cbn [nnth] in H. destruct (N.eqb_spec i 0) as [->|Hi].
+      * injection H as <-. cbn [pseq]. now rewrite seq_add_0.
+      * apply H1 in H. rewrite H, seq_add_next. f_equal. lia.
+    + constructor.
+      * splits; try reflexivity. exists x. split; [now left|]. unfold psize; cbn [ppayload be16 app nlen]. lia.
+      * eapply Forall_impl; [|exact H2]. intros p (Ha & Hb & y & Hy & Hz). splits; try assumption. exists y. split; [now right|assumption].
+Qed.
+
+(* one batch: the group of packets is non-empty, within the limit, sequence numbers run on,
+   the marker is set on every packet *)
+Lemma write_batch_wf b ts seq : batch_ok b -> seq < 65536 -> Forall (fun a => a <> []) b ->
+  exists g, write_batch max b ts seq = Some g /\ g <> [] /\
+    Forall (fun p => psize p <= max /\ pts p = ts /\ pmarker p = true) g /\ seqs_ok seq g.
+Proof.
+  intros Hb Hs Hne.
+  assert (Hagg : len_agg b None <= max ->
+     exists g, Some (write_agg b ts seq) = Some g /\ g <> [] /\
+       Forall (fun p => psize p <= max /\ pts p = ts /\ pmarker p = true) g /\ seqs_ok seq g).
+  { intros Hle. eexists. split; [reflexivity|]. split; [discriminate|]. split.
+    - constructor; [|constructor]. splits; try reflexivity. unfold psize, Model.len_agg in *; cbn [ppayload app nlen] in *. lia.
+    - intros i p H. unfold write_agg in H. cbn [nnth] in H. destruct (N.eqb_spec i 0) as [->|]; [|discriminate].
+      injection H as <-. cbn [pseq]. now rewrite seq_add_0. }
+  destruct b as [|a [|a2 t]].
+  - apply Hagg. unfold Model.len_agg. cbn. lia.
+  - cbn [write_batch]. destruct (N.ltb_spec (len_agg [a] None) max) as [Hlt|Hge].
+    + apply Hagg. lia.
+    + unfold write_frag. destruct (N.ltb_spec max 5); [lia|].
+      inversion Hne as [|? ? Ha _]; subst.
+      assert (Hav : 0 < max - 4) by lia.
+      destruct (frag_pkts_wf ts (chunks (max - 4) a) seq 0 Hs) as [H1 H2].
+      eexists. split; [reflexivity|]. splits.
+      * rewrite chunks_cons by assumption. discriminate.
+      * eapply Forall_impl; [|exact H2]. intros p (Ha1 & Ha2 & x & Hx & Hsz). splits; try assumption.
+        pose proof (chunks_bounds (max - 4) a Hav) as Hcb. rewrite Forall_forall in Hcb. specialize (Hcb x Hx). lia.
+      * exact H1.
+  - apply Hagg. apply Hb. cbn [nlen]. lia.
+Qed.
+
+(* the whole Encode call, batch by batch; EErr: a frame of a flushed batch has no parseable header *)
+Fixpoint enc_groups (bs : list (list bytes)) (ts seq : N) : eres (list (list packet)) :=
+  match bs with
+  | [] => EOk []
+  | b :: t =>
+      match write_batch max b ts seq with
+      | None => EPanic
+      | Some g =>
+          match t with
+          | [] => EOk [g]
+          | _ =>
+              match batch_samples mpa b ts with
+              | EOk ts' =>
+                  match enc_groups t ts' (seq_add seq (nlen g)) with
+                  | EOk gs => EOk (g :: gs)
+                  | e => e
+                  end
+              | EErr => EErr
+              | EPanic => EPanic
+              end
+          end
+      end
+  end.
+
+Lemma enc_batches_groups bs : forall ts seq, seq < 65536 ->
+  enc_batches mpa max bs ts seq =
+  match enc_groups bs ts seq with
+  | EOk gs => EOk (concat gs, seq_add seq (nlen (concat gs)))
+  | EErr => EErr
+  | EPanic => EPanic
+  end.
+Proof.
+  induction bs as [|b t IH]; intros ts seq Hs; cbn [enc_batches enc_groups].
+  - cbn. now rewrite seq_add_0.
+  - destruct (write_batch max b ts seq) as [g|]; [|reflexivity].
+    destruct t as [|b2 t2]; [cbn [concat]; now rewrite app_nil_r|].
+    destruct (batch_samples mpa b ts) as [ts'| |]; try reflexivity.
+    rewrite IH by apply seq_add_lt. destruct (enc_groups (b2 :: t2) ts' _) as [gs| |]; try reflexivity.
+    cbn [concat]. rewrite nlen_app, seq_add_add. reflexivity.
+Qed.
+
+Definition group_ok (g : list packet) : Prop :=
+  g <> [] /\ Forall (fun p => psize p <= max /\ pmarker p = true) g.
+
+Lemma enc_groups_wf bs : forall ts seq gs, seq < 65536 -> Forall batch_ok bs ->
+  Forall (Forall (fun a => a <> [])) bs -> enc_groups bs ts seq = EOk gs ->
+  nlen gs = nlen bs /\ Forall group_ok gs /\ seqs_ok seq (concat gs).
+Proof.
+  induction bs as [|b t IH]; intros ts seq gs Hs Hok Hne He; cbn [enc_groups] in He.
+  - injection He as <-. splits; [reflexivity|constructor|]. intros i p H. cbn in H. discriminate.
+  - inversion Hok as [|? ? Hb Ht]; subst. inversion Hne as [|? ? Hn Hnt]; subst.
+    destruct (write_batch_wf b ts seq Hb Hs Hn) as (g & Hg & Hgne & Hgsz & Hgseq). rewrite Hg in He.
+    assert (Hgok : group_ok g).
+    { split; [assumption|]. eapply Forall_impl; [|exact Hgsz]. cbn. tauto. }
+    destruct t as [|b2 t2].
+    + injection He as <-. splits; [reflexivity|constructor; [assumption|constructor]|]. cbn [concat]. now rewrite app_nil_r.
+    + destruct (batch_samples mpa b ts) as [ts'| |]; try discriminate.
+      destruct (enc_groups (b2 :: t2) ts' (seq_add seq (nlen g))) as [gs'| |] eqn:E; try discriminate.
+      injection He as <-. destruct (IH ts' _ gs' (seq_add_lt _ _) Ht Hnt E) as (Hl & Hall & Hseq).
+      splits; [cbn [nlen] in *; now rewrite Hl|constructor; assumption|]. cbn [concat]. now apply seqs_ok_app.
+Qed.
+
+Lemma enc_groups_nopanic bs : (forall b, mpa b <> PPanic) -> forall ts seq, seq < 65536 -> Forall batch_ok bs ->
+  Forall (Forall (fun a => a <> [])) bs -> enc_groups bs ts seq <> EPanic.
+Proof.
+  intros Hnp. induction bs as [|b t IH]; intros ts seq Hs Hok Hne; cbn [enc_groups]; [discriminate|].
+  inversion Hok as [|? ? Hb Ht]; subst. inversion Hne as [|? ? Hn Hnt]; subst.
+  destruct (write_batch_wf b ts seq Hb Hs Hn) as (g & Hg & _). rewrite Hg.
+  destruct t as [|b2 t2]; [discriminate|].
+  assert (Hbs : forall l ts0, batch_samples mpa l ts0 <> EPanic).
+  { induction l as [|f l IHl]; intros ts0; cbn [batch_samples]; [discriminate|].
+    specialize (Hnp f). destruct (mpa f); [apply IHl|discriminate|congruence]. }
+  specialize (Hbs b ts). destruct (batch_samples mpa b ts) as [ts'| |]; [|discriminate|congruence].
+  specialize (IH ts' (seq_add seq (nlen g)) (seq_add_lt _ _) Ht Hnt).
+  destruct (enc_groups (b2 :: t2) ts' _); [discriminate|discriminate|congruence].
+Qed.
+
+Lemma nonempty_batches fs : Forall (fun a : bytes => a <> []) fs ->
+  Forall (Forall (fun a : bytes => a <> [])) (batch_loop max fs []).
+Proof.
+  intros Hne.
+  assert (G : forall bs, Forall (fun a : bytes => a <> []) (concat bs) -> Forall (Forall (fun a : bytes => a <> [])) bs).
+  { induction bs as [|x t IHb]; intros H; constructor; cbn [concat] in H; apply Forall_app in H; [tauto|apply IHb; tauto]. }
+  apply G. rewrite batch_loop_concat. exact Hne.
+Qed.
+
+(* C06: whenever Encode succeeds, every payload is within the limit, every packet carries the
+   marker, sequence numbers run on from the encoder's counter *)
+Theorem enc_wellformed seq fs ps seq' : seq < 65536 -> Forall (fun a => a <> []) fs ->
+  enc mpa max seq fs = EOk (ps, seq') ->
+  exists gs, enc_groups (batch_loop max fs []) 0 seq = EOk gs /\ ps = concat gs /\
+    seq' = seq_add seq (nlen ps) /\ nlen gs = nlen (batch_loop max fs []) /\
+    Forall group_ok gs /\ seqs_ok seq ps.
+Proof.
+  intros Hs Hne He. unfold enc in He. rewrite enc_batches_groups in He by assumption.
+  destruct (enc_groups (batch_loop max fs []) 0 seq) as [gs| |] eqn:E; try discriminate.
+  injection He as <- <-.
+  destruct (enc_groups_wf (batch_loop max fs []) 0 seq gs Hs) as (Hl & Hall & Hseq); try assumption.
+  - apply batch_loop_ok. intros H. cbn in H. lia.
+  - now apply nonempty_batches.
+  - exists gs. splits; try assumption; reflexivity.
+Qed.
+
+Theorem enc_nopanic seq fs : (forall b, mpa b <> PPanic) -> seq < 65536 -> Forall (fun a => a <> []) fs ->
+  enc mpa max seq fs <> EPanic.
+Proof.
+  intros Hnp Hs Hne. unfold enc. rewrite enc_batches_groups by assumption.
+  pose proof (enc_groups_nopanic (batch_loop max fs []) Hnp 0 seq Hs) as H.
+  destruct (enc_groups (batch_loop max fs []) 0 seq); [discriminate|discriminate|].
+  exfalso. apply H; [apply batch_loop_ok; intros H0; cbn in H0; lia|now apply nonempty_batches|reflexivity].
+Qed.
+
+End E.
+
+(* ====================================================================================== *)
+(* ---------- decoder, under the contract of the header parser ---------- *)
+Section D.
+Variable mpa : bytes -> pres.
+Variable FL : N.      (* the largest frame length the parser can announce *)
+Hypothesis K_np  : forall b, mpa b <> PPanic.
+Hypothesis K_pos : forall b fl sc, mpa b = POk fl sc -> 0 < fl.
+Hypothesis K_len : forall b fl sc, mpa b = POk fl sc -> 5 <= nlen b.
+Hypothesis K_pre : forall a b, 5 <= nlen a -> mpa (a ++ b) = mpa a.
+Hypothesis K_max : forall b fl sc, mpa b = POk fl sc -> fl <= FL.
+Hypothesis K_FL  : FL < 65536.
+
+Notation dec := (dec mpa).
+Notation dec_run := (dec_run mpa).
+Notation agg_loop := (agg_loop mpa).
+
+Definition fsize (f : list bytes) : N := nlen (concat f).
+Definition psz (p : packet) : N := nlen (ppayload p).
+
+(* ---- the loop over an offset-0 packet: terminates, takes its frames out of the buffer ---- *)
+Lemma agg_loop_spec fuel : forall buf frames, nlen buf < nlen fuel ->
+  match agg_loop fuel buf frames with
+  | APanic => False
+  | ADone fs => fsize fs <= fsize frames + nlen buf
+  | AFrag fl => frames = [] /\ nlen buf < fl /\ fl <= FL /\ 5 <= nlen buf
+  | AErr => True
+  end.
+Proof.
+  induction fuel as [|f0 fuel IH]; intros buf frames Hf; [cbn [nlen] in Hf; lia|].
+  cbn [Model.agg_loop]. pose proof (K_np buf) as Hnp.
+  destruct (mpa buf) as [fl sc| |] eqn:E; [|exact I|congruence].
+  pose proof (K_pos _ _ _ E) as Hpos. pose proof (K_max _ _ _ E) as Hmx. pose proof (K_len _ _ _ E) as Hl5.
+  destruct (N.leb_spec fl (nlen buf)) as [Hle|Hgt].
+  - assert (Htk : nlen (ntake fl buf) = fl) by (rewrite nlen_ntake; lia).
+    assert (Hdr : nlen (ndrop fl buf) = nlen buf - fl) by apply nlen_ndrop.
+    destruct (ndrop fl buf) as [|y yt] eqn:Ed.
+    + unfold fsize. rewrite concat_snoc, nlen_app, Htk. lia.
+    + specialize (IH (y :: yt) (frames ++ [ntake fl buf])). cbn [nlen] in Hf.
+      destruct (agg_loop fuel (y :: yt) (frames ++ [ntake fl buf])).
+      * unfold fsize in *. rewrite concat_snoc, nlen_app, Htk in IH. lia.
+      * destruct IH as (H1 & _); [lia|]. destruct frames; discriminate.
+      * exact I.
+      * apply IH. lia.
+  - destruct frames; [|exact I]. splits; [reflexivity|lia|assumption|assumption].
+Qed.
+
+(* ---- invariant of the reassembly state ---- *)
+Definition Inv (d : dstate) : Prop :=
+  dsize d = nlen (concat (dfrags d)) /\ (dsize d = 0 -> dfrags d = []) /\
+  Forall (fun f => 0 < nlen f) (dfrags d) /\ (0 < dsize d -> 0 < dexp d /\ dsize d + dexp d <= FL).
+Definition clean (d : dstate) : Prop := dsize d = 0 /\ dfrags d = [].
+
+Lemma inv_init : Inv dinit.
+Proof. unfold Inv, dinit; cbn. splits; auto; lia. Qed.
+Lemma inv_clean fi ex : Inv (mkD fi [] 0 ex).
+Proof. unfold Inv; cbn. splits; auto; lia. Qed.
+Lemma inv_reset d : Inv (dreset d).
+Proof. apply inv_clean. Qed.
+
+(* one Decode call: invariant, no panic (no endless loop), retained and returned sizes bounded *)
+Lemma dec_step P d p : Inv d -> psz p <= P ->
+  let '(d', r) := dec d p in
+  Inv d' /\ r <> DPanic /\ (forall f, r = DFrame f -> fsize f <= N.max FL P).
+Proof.
+  intros HI HP.
+  assert (Hreset : Inv (dreset d) /\ @DErr (list bytes) <> DPanic /\
+                   (forall f, @DErr (list bytes) = DFrame f -> fsize f <= N.max FL P)).
+  { splits; [apply inv_reset|discriminate|discriminate]. }
+  unfold Model.dec. unfold psz in HP.
+  destruct (ppayload p) as [|b0 [|b1 [|b2 [|b3 [|b4 rest']]]]]; try exact Hreset.
+  remember (b4 :: rest') as rest eqn:Er.
+  assert (Hrl : 0 < nlen rest /\ nlen rest <= P) by (subst rest; cbn [nlen] in *; lia).
+  destruct (b0 * 256 + b1 =? 0); cbn [negb]; [|exact Hreset].
+  destruct (N.eqb_spec (b2 * 256 + b3) 0) as [Hoff|Hoff].
+  - pose proof (agg_loop_spec (0 :: rest) rest []) as Ha.
+    destruct (agg_loop (0 :: rest) rest []) as [fs|fl| |].
+    + splits; [apply inv_clean|discriminate|]. intros f E; injection E as <-.
+      unfold fsize in *. cbn [concat nlen] in Ha. specialize (Ha ltac:(cbn [nlen]; lia)). lia.
+    + destruct Ha as (_ & H2 & H3 & H4); [cbn [nlen]; lia|].
+      splits; [|discriminate|discriminate]. unfold Inv; cbn [dsize dfrags dexp concat]. rewrite app_nil_r.
+      splits; [reflexivity|lia|constructor; [lia|constructor]|lia].
+    + splits; [apply inv_clean|discriminate|discriminate].
+    + exfalso. apply Ha. cbn [nlen]. lia.
+  - destruct (N.eqb_spec (b2 * 256 + b3) (dsize d)) as [Heq|Hneq]; cbn [negb].
+    2:{ destruct (dfirst d); [exact Hreset|]. splits; [exact HI|discriminate|discriminate]. }
+    destruct (N.ltb_spec (dexp d) (nlen rest)) as [|Hex]; [exact Hreset|].
+    destruct HI as (Hs & Hz & Hfr & Hexp). destruct Hexp as [He1 He2]; [lia|].
+    destruct (N.ltb_spec 0 (dexp d - nlen rest)) as [Hmore|Hdone].
+    + splits; [|discriminate|discriminate]. unfold Inv; cbn [dsize dfrags dexp].
+      rewrite concat_snoc, nlen_app. splits; [lia|lia| |lia].
+      apply Forall_app. split; [assumption|]. constructor; [lia|constructor].
+    + cbn [dfrags dsize].
+      replace (dsize d + nlen rest) with (nlen (concat (dfrags d ++ [rest])))
+        by (rewrite concat_snoc, nlen_app; lia).
+      rewrite join_exact. splits; [apply inv_reset|discriminate|].
+      intros f E; injection E as <-. unfold fsize; cbn [concat]. rewrite app_nil_r, concat_snoc, nlen_app. lia.
+Qed.
+
+Lemma dec_run_spec P hist : forall d, Inv d -> Forall (fun p => psz p <= P) hist ->
+  let '(d', rs) := dec_run d hist in
+  Inv d' /\ ~ In DPanic rs /\ forall f, In (DFrame f) rs -> fsize f <= N.max FL P.
+Proof.
+  induction hist as [|p t IH]; intros d HI HF; cbn [Model.dec_run].
+  - splits; [assumption|intros []|intros f []].
+  - inversion HF as [|? ? Hp Ht]; subst.
+    pose proof (dec_step P d p HI Hp) as Hstep. destruct (dec d p) as [d' r].
+    destruct Hstep as (HI' & Hnp & Hfr).
+    specialize (IH d' HI' Ht). destruct (dec_run d' t) as [d'' rs].
+    destruct IH as (HI'' & Hnp' & Hfr').
+    assert (G : Inv d'' /\ ~ In DPanic (r :: rs) /\ forall f, In (DFrame f) (r :: rs) -> fsize f <= N.max FL P).
+    { splits; [assumption| |].
+      - intros [H|H]; [congruence|contradiction].
+      - intros f [H|H]; [now apply Hfr|now apply Hfr']. }
+    destruct r; try exact G. congruence.
+Qed.
+
+Lemma hist_bound (hist : list packet) : exists P, Forall (fun p => psz p <= P) hist.
+Proof.
+  induction hist as [|p t [P HF]]; [exists 0; constructor|].
+  exists (N.max P (psz p)). constructor; [lia|]. eapply Forall_impl; [|exact HF]. cbn. intros; lia.
+Qed.
+
+Theorem total hist : ~ In DPanic (snd (dec_run dinit hist)).
+Proof.
+  destruct (hist_bound hist) as [P HF]. pose proof (dec_run_spec P hist dinit inv_init HF) as H.
+  destruct (dec_run dinit hist) as [d rs]. cbn [snd]. tauto.
+Qed.
+
+(* retained bytes and slice headers never exceed the largest frame length (whatever the packet sizes);
+   a returned frame list is at most max(FL, packet) bytes *)
+Theorem bounded P hist :
+  Forall (fun p => psz p <= P) hist ->
+  let '(d, rs) := dec_run dinit hist in
+  fst (retained d) <= FL /\ snd (retained d) <= FL /\
+  forall f, In (DFrame f) rs -> fsize f <= N.max FL P.
+Proof.
+  intros HF. pose proof (dec_run_spec P hist dinit inv_init HF) as H. destruct (dec_run dinit hist) as [d rs].
+  destruct H as ((Hs & Hz & Hne & Hexp) & _ & Hfr).
+  assert (Hb : nlen (concat (dfrags d)) <= FL).
+  { destruct (N.eq_dec (dsize d) 0) as [E|E]; [lia|]. destruct Hexp; lia. }
+  unfold retained; cbn [fst snd]. splits; [assumption| |assumption].
+  pose proof (nlen_concat_ge (dfrags d) Hne). lia.
+Qed.
+
+End D.
+
+(* ====================================================================================== *)
+(* ---------- round trip (C03) and resynchronisation (C07) ---------- *)
+Section R.
+Variable mpa : bytes -> pres.
+Variable FL : N.
+Variable max : N.
+Hypothesis K_np  : forall b, mpa b <> PPanic.
+Hypothesis K_pos : forall b fl sc, mpa b = POk fl sc -> 0 < fl.
+Hypothesis K_len : forall b fl sc, mpa b = POk fl sc -> 5 <= nlen b.
+Hypothesis K_pre : forall a b, 5 <= nlen a -> mpa (a ++ b) = mpa a.
+Hypothesis K_max : forall b fl sc, mpa b = POk fl sc -> fl <= FL.
+Hypothesis K_FL  : FL < 65536.
+Hypothesis Hmax : 9 <= max.      (* the first fragment must hold the 5 header bytes the parser insists on *)
+
+Notation dec := (dec mpa).
+Notation dec_run := (dec_run mpa).
+Notation agg_loop := (agg_loop mpa).
+
+(* a frame whose length is the one its own header announces *)
+Definition valid_au (f : bytes) : Prop := exists sc, mpa f = POk (nlen f) sc.
+Definition valid_frame (fs : list bytes) : Prop := fs <> [] /\ Forall valid_au fs.
+Definition ready (d : dstate) : Prop := dsize d = 0 /\ dfrags d = [] /\ dfirst d = true.
+
+Lemma valid_au_len f : valid_au f -> 5 <= nlen f /\ nlen f <= FL.
+Proof. intros [sc H]. split; [eapply K_len; eassumption|eapply K_max; eassumption]. Qed.
+
+Lemma agg_loop_ok B : forall frames fuel, B <> [] -> Forall valid_au B -> nlen (concat B) < nlen fuel ->
+  agg_loop fuel (concat B) frames = ADone (frames ++ B).
+Proof.
+  induction B as [|f t IH]; intros frames fuel Hne Hv Hf; [contradiction|].
+  inversion Hv as [|? ? Hvf Hvt]; subst. destruct (valid_au_len f Hvf) as [Hl5 _]. destruct Hvf as [sc Hsc].
+  destruct fuel as [|f0 fuel]; [cbn [nlen] in Hf; lia|]. cbn [Model.agg_loop concat].
+  rewrite K_pre by assumption. rewrite Hsc. rewrite nlen_app.
+  destruct (N.leb_spec (nlen f) (nlen f + nlen (concat t))); [|lia].
+  rewrite ndrop_app_exact, ntake_app_exact.
+  destruct t as [|f2 t2].
+  - cbn [concat]. reflexivity.
+  - specialize (IH (frames ++ [f]) fuel ltac:(discriminate) Hvt).
+    assert (Hfl : nlen (concat (f2 :: t2)) < nlen fuel).
+    { change (concat (f :: f2 :: t2)) with (f ++ concat (f2 :: t2)) in Hf. rewrite nlen_app in Hf. cbn [nlen] in Hf. lia. }
+    assert (Hc2 : 5 <= nlen (concat (f2 :: t2))).
+    { inversion Hvt as [|? ? Hv2 _]; subst. destruct (valid_au_len f2 Hv2) as [H5 _]. cbn [concat]. rewrite nlen_app. lia. }
+    destruct (concat (f2 :: t2)) as [|y yt].
+    + cbn [nlen] in Hc2. lia.
+    + rewrite IH by assumption. now rewrite <- app_assoc.
+Qed.
+
+Lemma dec_off0 d seq ts m rest : rest <> [] ->
+  dec d (mkPkt seq ts m ([0; 0; 0; 0] ++ rest)) =
+  match agg_loop (0 :: rest) rest [] with
+  | ADone frames => (mkD true [] 0 (dexp d), DFrame frames)
+  | AErr => (mkD true [] 0 (dexp d), DErr)
+  | APanic => (mkD true [] 0 (dexp d), DPanic)
+  | AFrag fl => (mkD true [rest] (nlen rest) (fl - nlen rest), DMore)
+  end.
+Proof. intros Hne. destruct rest as [|b4 rest']; [contradiction|]. reflexivity. Qed.
+
+(* an aggregated packet: from ANY decoder state (an offset-0 packet drops whatever was pending) *)
+Lemma dec_agg B d seq ts : B <> [] -> Forall valid_au B ->
+  exists d', dec d (mkPkt seq ts true ([0; 0; 0; 0] ++ concat B)) = (d', DFrame B) /\ ready d'.
+Proof.
+  intros Hne Hv. assert (Hc : concat B <> []).
+  { destruct B as [|f t]; [contradiction|]. inversion Hv as [|? ? Hvf _]; subst. destruct (valid_au_len f Hvf) as [H5 _].
+    cbn [concat]. intros E. apply (f_equal (@nlen N)) in E. rewrite nlen_app in E. cbn [nlen] in E. lia. }
+  rewrite dec_off0 by assumption. rewrite agg_loop_ok; [|assumption|assumption|cbn [nlen]; lia].
+  eexists. split; [reflexivity|]. unfold ready; cbn. tauto.
+Qed.
+
+Lemma dec_cont d seq ts pos x : x <> [] -> pos < 65536 -> pos <> 0 -> pos = dsize d -> nlen x <= dexp d ->
+  dec d (mkPkt seq ts true ([0; 0] ++ be16 pos ++ x)) =
+  (let d' := mkD (dfirst d) (dfrags d ++ [x]) (dsize d + nlen x) (dexp d - nlen x) in
+   if 0 <? dexp d - nlen x then (d', DMore)
+   else match join (dfrags d') (dsize d') with
+        | Some f => (dreset d', DFrame [f])
+        | None => (d', DPanic)
+        end).
+Proof.
+  intros Hne Hp Hp0 Hps Hex. destruct x as [|b4 rest']; [contradiction|].
+  unfold Model.dec. cbn [ppayload be16 app]. cbn [N.mul N.add N.eqb negb].
+  rewrite be16_val by assumption.
+  destruct (N.eqb_spec pos 0); [contradiction|]. destruct (N.eqb_spec pos (dsize d)); [|contradiction]. cbn [negb].
+  destruct (N.ltb_spec (dexp d) (nlen (b4 :: rest'))); [lia|]. reflexivity.
+Qed.
+
+Definition settled_as (d0 d' : dstate) : Prop := dsize d' = 0 /\ dfrags d' = [] /\ dfirst d' = dfirst d0.
+
+(* the remaining pieces of a fragmented frame *)
+Lemma dec_rest ts cs : forall d seq pos,
+  cs <> [] -> Forall (fun x => x <> []) cs -> pos = dsize d -> 0 < pos ->
+  dexp d = nlen (concat cs) -> dsize d = nlen (concat (dfrags d)) -> pos + nlen (concat cs) < 65536 ->
+  exists d', dec_run d (frag_pkts seq ts pos cs) =
+    (d', repeat DMore (length cs - 1) ++ [DFrame [concat (dfrags d) ++ concat cs]]) /\ settled_as d d'.
+Proof.
+  induction cs as [|x t IH]; intros d seq pos Hne Hnn Hpos Hp0 Hexp Hsz Hlt; [contradiction|].
+  inversion Hnn as [|? ? Hx Hnt]; subst pos. cbn [concat] in Hexp, Hlt. rewrite nlen_app in Hexp, Hlt.
+  cbn [frag_pkts Model.dec_run]. rewrite dec_cont; [|assumption|lia|lia|reflexivity|lia].
+  assert (Hxl : 0 < nlen x) by (destruct x; [contradiction|cbn [nlen]; lia]).
+  destruct t as [|x2 t2].
+  - cbn [concat nlen] in Hexp. replace (dexp d - nlen x) with 0 by lia. cbn [N.ltb N.compare].
+    cbn [dfrags dsize]. replace (dsize d + nlen x) with (nlen (concat (dfrags d ++ [x]))) by (rewrite concat_snoc, nlen_app; lia).
+    rewrite join_exact. cbn [frag_pkts Model.dec_run length Nat.sub repeat app concat]. rewrite concat_snoc, app_nil_r.
+    eexists. split; [reflexivity|]. unfold settled_as; cbn. tauto.
+  - assert (Hx2 : 0 < nlen (concat (x2 :: t2))).
+    { inversion Hnt as [|? ? Hx2 _]; subst. cbn [concat]. rewrite nlen_app. destruct x2; [contradiction|cbn [nlen]; lia]. }
+    destruct (N.ltb_spec 0 (dexp d - nlen x)); [|lia].
+    set (d1 := mkD (dfirst d) (dfrags d ++ [x]) (dsize d + nlen x) (dexp d - nlen x)).
+    destruct (IH d1 (seq_next seq) (dsize d + nlen x)) as (d' & Hrun & Hst).
+    + discriminate.
+    + assumption.
+    + reflexivity.
+    + lia.
+    + unfold d1; cbn [dexp]. lia.
+    + unfold d1; cbn [dsize dfrags]. rewrite concat_snoc, nlen_app. lia.
+    + lia.
+    + cbv zeta. cbv iota beta. rewrite Hrun. exists d'. split; [|exact Hst].
+      unfold d1; cbn [dfrags]. rewrite concat_snoc, <- app_assoc.
+      cbn [length Nat.sub]. rewrite Nat.sub_0_r. cbn [concat]. reflexivity.
+Qed.
+
+(* all the packets of one fragmented frame, from ANY decoder state *)
+Lemma dec_group ts f : forall d seq, valid_au f ->
+  let cs := chunks (max - 4) f in
+  exists d', dec_run d (frag_pkts seq ts 0 cs) = (d', repeat DMore (length cs - 1) ++ [DFrame [f]]) /\ ready d'.
+Proof.
+  intros d seq Hv cs. destruct (valid_au_len f Hv) as [Hl5 HlF]. destruct Hv as [sc Hsc].
+  assert (Hav : 0 < max - 4) by lia.
+  assert (Hfne : f <> []) by (intros ->; cbn in Hl5; lia).
+  assert (Hcc : concat cs = f) by (apply chunks_concat; assumption).
+  assert (Hcb : Forall (fun x => x <> []) cs).
+  { pose proof (chunks_bounds (max - 4) f Hav) as Hb. eapply Forall_impl; [|exact Hb]. intros x [Hx _] ->. cbn in Hx. lia. }
+  unfold cs in *. rewrite chunks_cons in * by assumption.
+  set (c1 := ntake (max - 4) f) in *. set (t := chunks (max - 4) (ndrop (max - 4) f)) in *.
+  assert (Hc1 : 5 <= nlen c1) by (unfold c1; rewrite nlen_ntake; lia).
+  assert (Hf : f = c1 ++ concat t) by (cbn [concat] in Hcc; congruence).
+  assert (Hm1 : mpa c1 = POk (nlen f) sc).
+  { pose proof (K_pre c1 (concat t) Hc1) as Hk. rewrite <- Hf in Hk. rewrite Hsc in Hk. now symmetry. }
+  assert (Hc1ne : c1 <> []) by (intros E; rewrite E in Hc1; cbn in Hc1; lia).
+  cbn [frag_pkts Model.dec_run]. change (be16 0) with [0; 0]. change ([0; 0] ++ [0; 0] ++ c1) with ([0; 0; 0; 0] ++ c1).
+  rewrite dec_off0 by assumption. cbn [Model.agg_loop]. rewrite Hm1.
+  destruct t as [|x2 t2] eqn:Et.
+  - cbn [concat] in Hf. rewrite app_nil_r in Hf. rewrite <- Hf.
+    rewrite N.leb_refl. rewrite ndrop_all, ntake_all by lia. cbn [app frag_pkts Model.dec_run length Nat.sub repeat].
+    eexists. split; [reflexivity|]. unfold ready; cbn. tauto.
+  - pose proof (Forall_inv_tail Hcb) as Hcbt.
+    assert (Hx2 : 0 < nlen (concat (x2 :: t2))).
+    { pose proof (Forall_inv Hcbt) as Hx2. cbn [concat]. rewrite nlen_app. destruct x2; [contradiction|cbn [nlen]; lia]. }
+    assert (Hfl : nlen f = nlen c1 + nlen (concat (x2 :: t2))) by (rewrite Hf at 1; apply nlen_app).
+    destruct (N.leb_spec (nlen f) (nlen c1)); [lia|].
+    set (d1 := mkD true [c1] (nlen c1) (nlen f - nlen c1)).
+    destruct (dec_rest ts (x2 :: t2) d1 (seq_next seq) (0 + nlen c1)) as (d' & Hrun & Hst).
+    + discriminate.
+    + assumption.
+    + unfold d1; cbn [dsize]. lia.
+    + lia.
+    + unfold d1; cbn [dexp]. lia.
+    + unfold d1; cbn [dsize dfrags concat]. now rewrite app_nil_r.
+    + lia.
+    + rewrite Hrun. exists d'. split.
+      * unfold d1; cbn [dfrags]. change (concat [c1]) with (c1 ++ []). rewrite app_nil_r, <- Hf.
+        cbn [length Nat.sub]. rewrite Nat.sub_0_r. reflexivity.
+      * destruct Hst as (H1 & H2 & H3). unfold ready. now rewrite H1, H2, H3.
+Qed.
+
+Definition batch_valid (B : list bytes) : Prop := B <> [] /\ Forall valid_au B.
+
+Lemma dec_batch B d ts seq g : batch_valid B -> write_batch max B ts seq = Some g ->
+  exists d', dec_run d g = (d', repeat DMore (length g - 1) ++ [DFrame B]) /\ ready d'.
+Proof.
+  intros (Hne & Hv) Hw.
+  assert (Hagg : g = write_agg B ts seq ->
+     exists d', dec_run d g = (d', repeat DMore (length g - 1) ++ [DFrame B]) /\ ready d').
+  { intros ->. unfold write_agg. destruct (dec_agg B d seq ts Hne Hv) as (d' & Hd & Hrd).
+    cbn [Model.dec_run]. rewrite Hd. cbn [length Nat.sub repeat app]. exists d'. split; [reflexivity|assumption]. }
+  destruct B as [|a [|a2 t]]; [contradiction| |].
+  - cbn [write_batch] in Hw. destruct (len_agg [a] None <? max).
+    + injection Hw as <-. now apply Hagg.
+    + unfold write_frag in Hw. destruct (N.ltb_spec max 5); [lia|]. injection Hw as <-.
+      inversion Hv as [|? ? Hva _]; subst.
+      destruct (dec_group ts a d seq Hva) as (d' & Hrun & Hrd). exists d'. split; [|assumption]. rewrite Hrun.
+      replace (length (frag_pkts seq ts 0 (chunks (max - 4) a))) with (length (chunks (max - 4) a)); [reflexivity|].
+      pose proof (frag_pkts_len seq ts (chunks (max - 4) a) 0) as HL. rewrite !nlen_length in HL. lia.
+  - cbn [write_batch] in Hw. injection Hw as <-. now apply Hagg.
+Qed.
+
+Fixpoint expect (gs : list (list packet)) (bs : list (list bytes)) : list (dres (list bytes)) :=
+  match gs, bs with
+  | g :: gt, b :: bt => repeat DMore (length g - 1) ++ [DFrame b] ++ expect gt bt
+  | _, _ => []
+  end.
+
+Lemma dec_run_app ps1 : forall ps2 d d1 r1, dec_run d ps1 = (d1, r1) -> ~ In DPanic r1 ->
+  dec_run d (ps1 ++ ps2) = (let '(d2, r2) := dec_run d1 ps2 in (d2, r1 ++ r2)).
+Proof.
+  induction ps1 as [|p t IH]; intros ps2 d d1 r1 H Hnp; cbn [Model.dec_run app] in *.
+  - injection H as <- <-. destruct (dec_run d ps2); reflexivity.
+  - destruct (dec d p) as [d' r].
+    destruct r; try (destruct (dec_run d' t) as [d'' rs] eqn:E; injection H as <- <-;
+      rewrite (IH ps2 d' d'' rs E) by (intros Hin; apply Hnp; now right);
+      destruct (dec_run d'' ps2); reflexivity).
+    injection H as <- <-. exfalso. apply Hnp. now left.
+Qed.
+
+Lemma no_panic_expected n (B : list bytes) : ~ In DPanic (repeat (@DMore (list bytes)) n ++ [DFrame B]).
+Proof.
+  intros H. apply in_app_or in H. destruct H as [H|[H|[]]]; [|discriminate].
+  apply repeat_spec in H. discriminate.
+Qed.
+
+Lemma batch_samples_ok b : Forall valid_au b -> forall ts, exists ts', batch_samples mpa b ts = EOk ts'.
+Proof.
+  induction 1 as [|f t [sc Hf] Ht IH]; intros ts; cbn [batch_samples]; [eexists; reflexivity|].
+  rewrite Hf. apply IH.
+Qed.
+
+Lemma dec_groups bs : forall gs ts seq d, enc_groups mpa max bs ts seq = EOk gs -> Forall batch_valid bs ->
+  exists d', dec_run d (concat gs) = (d', expect gs bs) /\ (bs <> [] -> ready d') /\ (bs = [] -> d' = d).
+Proof.
+  induction bs as [|b t IH]; intros gs ts seq d Hg Hv; cbn [enc_groups] in Hg.
+  - injection Hg as <-. exists d. cbn. splits; auto. intros H; contradiction.
+  - inversion Hv as [|? ? Hb Ht]; subst.
+    destruct (write_batch max b ts seq) as [g|] eqn:Ew; [|discriminate].
+    destruct (dec_batch b d ts seq g Hb Ew) as (d1 & Hr1 & Hrd1).
+    destruct t as [|b2 t2].
+    + injection Hg as <-. cbn [concat expect]. rewrite !app_nil_r. exists d1. splits; [assumption|auto|discriminate].
+    + destruct (batch_samples mpa b ts) as [ts'| |]; try discriminate.
+      destruct (enc_groups mpa max (b2 :: t2) ts' _) as [gt| |] eqn:Eg; try discriminate. injection Hg as <-.
+      destruct (IH gt _ _ d1 Eg Ht) as (d2 & Hr2 & Hrd2 & _).
+      cbn [concat expect]. rewrite (dec_run_app g (concat gt) d d1 _ Hr1 (no_panic_expected _ _)), Hr2.
+      exists d2. splits; [now rewrite <- app_assoc|intros _; apply Hrd2; discriminate|discriminate].
+Qed.
+
+Lemma enc_groups_ok bs : Forall batch_valid bs -> (forall b, In b bs -> batch_ok max b) ->
+  forall ts seq, seq < 65536 -> exists gs, enc_groups mpa max bs ts seq = EOk gs /\ length gs = length bs.
+Proof.
+  induction bs as [|b t IH]; intros Hv Hok ts seq Hs; cbn [enc_groups]; [exists []; split; reflexivity|].
+  inversion Hv as [|? ? (Hbne & Hbv) Ht]; subst.
+  destruct (write_batch_wf mpa max ltac:(lia) b ts seq (Hok b (or_introl eq_refl)) Hs) as (g & Hg & _).
+  { eapply Forall_impl; [|exact Hbv]. intros a Ha ->. destruct (valid_au_len [] Ha) as [H5 _]. cbn in H5. lia. }
+  rewrite Hg. destruct t as [|b2 t2]; [exists [g]; split; reflexivity|].
+  destruct (batch_samples_ok b Hbv ts) as [ts' Hts]. rewrite Hts.
+  destruct (IH Ht (fun x Hx => Hok x (or_intror Hx)) ts' (seq_add seq (nlen g)) (seq_add_lt _ _)) as (gs & Hgs & Hl).
+  rewrite Hgs. exists (g :: gs). split; [reflexivity|cbn [length]; now rewrite Hl].
+Qed.
+
+Lemma batches_valid f : valid_frame f -> Forall batch_valid (batch_loop max f []).
+Proof.
+  intros (Hne & Hv). rewrite Forall_forall. intros B HB.
+  pose proof (batch_loop_concat max f []) as Hcat. cbn [app] in Hcat.
+  pose proof (batch_loop_nonempty max f [] (or_intror Hne)) as Hnn. rewrite Forall_forall in Hnn.
+  split; [now apply Hnn|]. rewrite Forall_forall in *. intros a Ha. apply Hv. rewrite <- Hcat. apply in_concat. exists B. split; assumption.
+Qed.
+
+Definition frames_of (rs : list (dres (list bytes))) : list bytes :=
+  flat_map (fun r => match r with DFrame x => x | _ => [] end) rs.
+Definition progress (r : dres (list bytes)) : Prop := r = DMore \/ exists x, r = DFrame x.
+Lemma frames_of_app a b : frames_of (a ++ b) = frames_of a ++ frames_of b.
+Proof. unfold frames_of. apply flat_map_app. Qed.
+Lemma frames_of_more n : frames_of (repeat DMore n) = [].
+Proof. induction n as [|k IH]; [reflexivity|]. cbn [repeat]. exact IH. Qed.
+Lemma expect_frames gs : forall bs, length gs = length bs ->
+  frames_of (expect gs bs) = concat bs /\ Forall progress (expect gs bs).
+Proof.
+  induction gs as [|g gt IH]; intros [|b bt] H; cbn [length] in H; try discriminate.
+  - split; [reflexivity|constructor].
+  - cbn [expect concat]. destruct (IH bt) as [H1 H2]; [lia|].
+    rewrite !frames_of_app, frames_of_more, H1. cbn [app]. split; [unfold frames_of; cbn; now rewrite app_nil_r|].
+    apply Forall_app. split; [|constructor; [right; eexists; reflexivity|assumption]].
+    apply Forall_forall. intros r Hr. apply repeat_spec in Hr. now left.
+Qed.
+
+(* C03 and C07 at once: the packets Encode produces for a valid frame, fed in order to a decoder in
+   ANY state [d] (clean or left in the middle of a damaged frame), give "more" inside a fragmented
+   frame and, at the packet completing each batch, exactly the frames of that batch *)
+Theorem roundtrip seq f d : valid_frame f -> seq < 65536 ->
+  exists gs d', enc mpa max seq f = EOk (concat gs, seq_add seq (nlen (concat gs))) /\
+    dec_run d (concat gs) = (d', expect gs (batch_loop max f [])) /\ ready d' /\
+    concat (batch_loop max f []) = f /\ length gs = length (batch_loop max f []).
+Proof.
+  intros Hv Hs. pose proof (batches_valid f Hv) as Hbv.
+  destruct (enc_groups_ok (batch_loop max f []) Hbv) with (ts := 0) (seq := seq) as (gs & Hg & Hl); [|assumption|].
+  { pose proof (batch_loop_ok mpa max ltac:(lia) f [] ltac:(intros H; cbn in H; lia)) as Hok. rewrite Forall_forall in Hok. exact Hok. }
+  destruct (dec_groups _ gs 0 seq d Hg Hbv) as (d' & Hr & Hrd & _).
+  pose proof (batch_loop_concat max f []) as Hcat. cbn [app] in Hcat.
+  exists gs, d'. splits; try assumption.
+  - unfold enc. rewrite enc_batches_groups by assumption. now rewrite Hg.
+  - apply Hrd. apply batch_loop_ne.
+Qed.
+
+Theorem roundtrip_frames seq f d : valid_frame f -> seq < 65536 ->
+  exists ps seq' d' rs, enc mpa max seq f = EOk (ps, seq') /\ dec_run d ps = (d', rs) /\
+    frames_of rs = f /\ Forall progress rs /\ ready d'.
+Proof.
+  intros Hv Hs. destruct (roundtrip seq f d Hv Hs) as (gs & d' & He & Hr & Hrd & Hcat & Hlen).
+  destruct (expect_frames gs _ Hlen) as [H1 H2].
+  exists (concat gs), (seq_add seq (nlen (concat gs))), d', (expect gs (batch_loop max f [])).
+  splits; try assumption. now rewrite H1.
+Qed.
+
+Theorem roundtrip_seq fs : Forall valid_frame fs -> forall seq d, seq < 65536 ->
+  exists pss d' rs, enc_many mpa max seq fs = EOk pss /\ dec_run d (concat pss) = (d', rs) /\
+    frames_of rs = concat fs /\ Forall progress rs.
+Proof.
+  induction 1 as [|f t Hf Ht IH]; intros seq d Hs.
+  - exists [], d, []. cbn. splits; auto; constructor.
+  - destruct (roundtrip_frames seq f d Hf Hs) as (ps & seq' & d1 & r1 & He & Hr1 & Hf1 & Hp1 & _).
+    assert (Hs' : seq' < 65536).
+    { destruct (roundtrip seq f d Hf Hs) as (gs & ? & He' & _). rewrite He in He'. injection He' as _ ->. apply seq_add_lt. }
+    destruct (IH seq' d1 Hs') as (pss & d2 & r2 & Hem & Hr2 & Hf2 & Hp2).
+    exists (ps :: pss), d2, (r1 ++ r2). cbn [enc_many]. rewrite He, Hem. cbn [concat]. splits.
+    + reflexivity.
+    + rewrite (dec_run_app ps (concat pss) d d1 r1 Hr1), Hr2; [reflexivity|].
+      intros Hin. rewrite Forall_forall in Hp1. destruct (Hp1 _ Hin) as [E|[x E]]; discriminate.
+    + now rewrite frames_of_app, Hf1, Hf2.
+    + apply Forall_app. split; assumption.
+Qed.
+
+(* C07: after ANY packet history an intact frame is returned exactly as in the loss-free case -
+   not even an intact predecessor is needed, because every packet group starts with an offset-0
+   packet, which drops whatever was pending *)
+Theorem resync hist f s : valid_frame f -> s < 65536 ->
+  exists ps q d' rs, enc mpa max s f = EOk (ps, q) /\
+    dec_run (fst (dec_run dinit hist)) ps = (d', rs) /\ frames_of rs = f /\ Forall progress rs /\ ready d'.
+Proof. intros Hv Hs. apply roundtrip_frames; assumption. Qed.
+
+End R.
+
+(* ====================================================================================== *)
+(* ---------- the contract holds for the re-modelled mediacommon parser ---------- *)
+Definition FLmax : N := 1729.   (* 144 * 384000 / 32000 + 1 *)
+
+Lemma nnth_lt_some {A} (l : list A) i : i < nlen l -> exists x, nnth i l = Some x.
+Proof. apply nnth_lt. Qed.
+
+Lemma mpa_parse_spec buf :
+  match mpa_parse buf with
+  | PPanic => False
+  | PErr => True
+  | POk fl sc => 0 < fl /\ fl <= FLmax /\ 5 <= nlen buf
+  end.
+Proof.
+  unfold mpa_parse. destruct buf as [|b0 [|b1 [|b2 [|b3 [|b4 rest]]]]]; try exact I.
+  destruct (negb _); [exact I|].
+  destruct (_ || _); [exact I|].
+  destruct (N.eqb_spec (b2 / 16) 0) as [|Hb0]; cbn [orb]; [exact I|].
+  destruct (N.leb_spec 15 (b2 / 16)) as [|Hb15]; [exact I|].
+  set (m2 := (b1 / 8) mod 2 =? 0). set (l3 := (b1 / 2) mod 4 =? 1).
+  set (tbl := if m2 then bitrates_m2 else if l3 then bitrates_m1_l3 else bitrates_m1_l2).
+  assert (Htl : nlen tbl = 14) by (unfold tbl; destruct m2, l3; reflexivity).
+  destruct (nnth_lt_some tbl (b2 / 16 - 1)) as [br Hbr]; [lia|]. rewrite Hbr.
+  destruct (N.leb_spec 3 ((b2 / 4) mod 4)) as [|Hs3]; [exact I|].
+  set (stbl := if m2 then srates_m2 else srates_m1).
+  assert (Hsl : nlen stbl = 3) by (unfold stbl; destruct m2; reflexivity).
+  destruct (nnth_lt_some stbl ((b2 / 4) mod 4)) as [sr Hsr]; [lia|]. rewrite Hsr.
+  apply nnth_In in Hbr. apply nnth_In in Hsr.
+  assert (Hq : 24 <= 144 * br / sr /\ 144 * br / sr <= 1728).
+  { unfold tbl, stbl in *. destruct m2.
+    - assert (8000 <= br <= 160000) by (cbn in Hbr; repeat (destruct Hbr as [<-|Hbr]; [lia|]); contradiction).
+      assert (16000 <= sr <= 24000) by (cbn in Hsr; repeat (destruct Hsr as [<-|Hsr]; [lia|]); contradiction).
+      split; [apply N.div_le_lower_bound; lia|apply N.div_le_upper_bound; lia].
+    - assert (32000 <= br <= 384000) by (destruct l3; cbn in Hbr; repeat (destruct Hbr as [<-|Hbr]; [lia|]); contradiction).
+      assert (32000 <= sr <= 48000) by (cbn in Hsr; repeat (destruct Hsr as [<-|Hsr]; [lia|]); contradiction).
+      split; [apply N.div_le_lower_bound; lia|apply N.div_le_upper_bound; lia]. }
+  unfold FLmax. cbn [nlen]. destruct ((b2 / 2) mod 2 =? 0); lia.
+Qed.
+
+Lemma mpa_np b : mpa_parse b <> PPanic.
+Proof. pose proof (mpa_parse_spec b) as H. destruct (mpa_parse b); [discriminate|discriminate|contradiction]. Qed.
+Lemma mpa_pos b fl sc : mpa_parse b = POk fl sc -> 0 < fl.
+Proof. intros E. pose proof (mpa_parse_spec b) as H. rewrite E in H. tauto. Qed.
+Lemma mpa_len b fl sc : mpa_parse b = POk fl sc -> 5 <= nlen b.
+Proof. intros E. pose proof (mpa_parse_spec b) as H. rewrite E in H. tauto. Qed.
+Lemma mpa_max b fl sc : mpa_parse b = POk fl sc -> fl <= FLmax.
+Proof. intros E. pose proof (mpa_parse_spec b) as H. rewrite E in H. tauto. Qed.
+Lemma mpa_pre a b : 5 <= nlen a -> mpa_parse (a ++ b) = mpa_parse a.
+Proof.
+  intros H. destruct a as [|b0 [|b1 [|b2 [|b3 [|b4 rest]]]]]; cbn [nlen] in H; try lia. reflexivity.
+Qed.
+Lemma FLmax_lt : FLmax < 65536.
+Proof. unfold FLmax. lia. Qed.
+
+(* ---------- the theorems for the concrete parser ---------- *)
+Ltac contract := first [exact mpa_np|exact mpa_pos|exact mpa_len|exact mpa_max|exact mpa_pre|exact FLmax_lt|assumption].
+
+Theorem total_mpa hist : ~ In DPanic (snd (dec_run mpa_parse dinit hist)).
+Proof. apply (total mpa_parse FLmax); contract. Qed.
+
+Theorem bounded_mpa P hist :
+  Forall (fun p => psz p <= P) hist ->
+  let '(d, rs) := dec_run mpa_parse dinit hist in
+  fst (retained d) <= FLmax /\ snd (retained d) <= FLmax /\
+  forall f, In (DFrame f) rs -> fsize f <= N.max FLmax P.
+Proof. apply (bounded mpa_parse FLmax); contract. Qed.
+
+Theorem roundtrip_mpa max : 9 <= max -> forall seq f d, valid_frame mpa_parse f -> seq < 65536 ->
+  exists gs d', enc mpa_parse max seq f = EOk (concat gs, seq_add seq (nlen (concat gs))) /\
+    dec_run mpa_parse d (concat gs) = (d', expect gs (batch_loop max f [])) /\ ready d' /\
+    concat (batch_loop max f []) = f /\ length gs = length (batch_loop max f []).
+Proof. intros Hm. apply (roundtrip mpa_parse FLmax max); contract. Qed.
+
+Theorem roundtrip_frames_mpa max : 9 <= max -> forall seq f d, valid_frame mpa_parse f -> seq < 65536 ->
+  exists ps seq' d' rs, enc mpa_parse max seq f = EOk (ps, seq') /\ dec_run mpa_parse d ps = (d', rs) /\
+    frames_of rs = f /\ Forall progress rs /\ ready d'.
+Proof. intros Hm. apply (roundtrip_frames mpa_parse FLmax max); contract. Qed.
+
+Theorem roundtrip_seq_mpa max : 9 <= max -> forall fs, Forall (valid_frame mpa_parse) fs -> forall seq d, seq < 65536 ->
+  exists pss d' rs, enc_many mpa_parse max seq fs = EOk pss /\ dec_run mpa_parse d (concat pss) = (d', rs) /\
+    frames_of rs = concat fs /\ Forall progress rs.
+Proof. intros Hm. apply (roundtrip_seq mpa_parse FLmax max); contract. Qed.
+
+Theorem resync_mpa max : 9 <= max -> forall hist f s, valid_frame mpa_parse f -> s < 65536 ->
+  exists ps q d' rs, enc mpa_parse max s f = EOk (ps, q) /\
+    dec_run mpa_parse (fst (dec_run mpa_parse dinit hist)) ps = (d', rs) /\ frames_of rs = f /\ Forall progress rs /\ ready d'.
+Proof. intros Hm. apply (resync mpa_parse FLmax max); contract. Qed.
+
+Theorem enc_nopanic_mpa max : 5 <= max -> forall seq fs, seq < 65536 ->
+  Forall (fun a => a <> []) fs -> enc mpa_parse max seq fs <> EPanic.
+Proof. intros Hm seq fs. exact (enc_nopanic mpa_parse max Hm seq fs mpa_np). Qed.
+
+Theorem enc_valid_succeeds_mpa max : 9 <= max -> forall seq f, valid_frame mpa_parse f -> seq < 65536 ->
+  exists gs, enc mpa_parse max seq f = EOk (concat gs, seq_add seq (nlen (concat gs))).
+Proof.
+  intros Hm seq f Hv Hs. destruct (roundtrip_mpa max Hm seq f dinit Hv Hs) as (gs & _ & He & _). now exists gs.
+Qed.
